@@ -19,11 +19,13 @@ RULE = ("seeded products: sample type x geometry class (1x1,1xN,Nx1,NxM; lines u
         "bit-pattern class (random raw 32/16-bit patterns incl. NaN payloads, inf, -0.0, denormals; zeros; all-ones; "
         "edges) x filesystem (local path, file://, memory://, vfs://) x records_per_chunk class (1, divisor, "
         "non-divisor, N-1, N, N+1, 2N+3, 2^40); plus the exhaustive block lines 1..Lmax x rpc 1..Lmax+1 x both types. "
-        "A case is non-trivial when at least one image was loaded and compared; distinct = distinct "
+        "Every random case opens three products: P, a twin with equal names/geometry elsewhere, and a replacement of P in place "
+        "(same filesystem, root and names, other samples); 40% of the cases carry fully random line prefixes whose fill / "
+        "data-pixel counts lie around the line width. A case is non-trivial when at least one image was loaded and compared; distinct = distinct "
         "(type, geometry, pattern, filesystem, rpc class) signatures")
 ASSUMPTIONS = ["only well-formed image files are generated (record length = prefix + pixels x sample size)",
                "expected samples are taken from the bytes the independent encoder wrote"]
-REQUIRED_OBS = ["elements_compared", "contract_evals"]
+REQUIRED_OBS = ["elements_compared", "contract_evals", "replaced_in_place"]
 
 PATTERNS = ["random", "random", "edges", "zeros", "ones", "index", "finite"]
 N_RANDOM = {"quick": 360, "thorough": 6000}
@@ -77,19 +79,30 @@ def run_case(i, tier, seed):
         pat0 = rng.choice(PATTERNS)
         # the second product has the same file names and geometry but other samples and lives elsewhere:
         # anything remembered per file *name* across opens shows up as the first product's pixels
-        products = [(geoms0, pat0), (geoms0, "random" if pat0 != "random" else "index")]
+        # the third product REPLACES the first one in place (same filesystem, root, names, geometry; other samples):
+        # anything memoised per location across opens shows up as the first product's pixels
+        products = [(geoms0, pat0), (geoms0, "random" if pat0 != "random" else "index"), (geoms0, "finite" if pat0 != "finite" else "edges")]
         rpcs_for = lambda n: harness.rpc_candidates(n, rng)
     sample = None
     fixed_rpcs = None
+    rich = i < nrand and rng.random() < 0.4
+    root0 = None
     for pidx, (geoms, pattern) in enumerate(products):
         if i < nrand:
-            kind = harness.FS_KINDS[(i + pidx) % 4]
+            kind = harness.FS_KINDS[(i + (pidx % 2)) % 4]
         pols = ["HH", "HV", "VH", "VV"][: len(geoms)]
         names = gen.product_names(level, pols=pols)
         files = {}
         for k, (n, (lines, pixels)) in enumerate(zip(names["imgs"], geoms)):
             rng_np = np.random.default_rng([seed, i, k, pidx])
-            im = gen.minimal_image(rng_np, typ, lines, pixels, pattern)
+            if rich:
+                # every prefix field random; the fill / data pixel counts of each line take values around the line width
+                im, _ = gen.full_image(rng, rng_np, typ, lines, pixels, pattern)
+                for pre in im["prefix"]:
+                    for fname in ("actual_count_of_left_fill_pixels", "actual_count_of_data_pixels", "actual_count_of_right_fill_pixels"):
+                        pre[fname] = rng.choice([0, 1, rng.randrange(0, pixels + 1), pixels, pixels + 1, 2 ** 32 - 1])
+            else:
+                im = gen.minimal_image(rng_np, typ, lines, pixels, pattern)
             files[n] = synth.image_bytes(im)
         files[names["vol"]] = synth.volume_bytes(gen.minimal_volume(len(geoms) + 2))
         files[names["led"]] = synth.leader_bytes(gen.minimal_leader())
@@ -97,7 +110,11 @@ def run_case(i, tier, seed):
         order = [names["vol"], names["led"], *names["imgs"], names["trl"]]
         files["summary.txt"] = synth.summary_text(
             synth.default_summary_entries(order, names["tag"], names["pid"], names["scene"], [(1, 1)])).encode()
-        root = harness.unique_root(kind)
+        root = root0 if (pidx == 2 and root0) else harness.unique_root(kind)
+        if pidx == 0:
+            root0 = root
+        if pidx == 2:
+            obs["replaced_in_place"] = obs.get("replaced_in_place", 0) + 1
         url = synth.install(files, root, kind)
         try:
             expected = {n: refdec.image(files[n]) for n in names["imgs"]}
@@ -119,7 +136,8 @@ def run_case(i, tier, seed):
                     g = harness.group_name(n)
                     exp = expected[n]
                     bits = refdec.samples_bits(exp)
-                    sigs.append(f"{typ}|{harness.geom_class(lines, pixels)}|{pattern}|{kind}|rpc:{harness.rpc_class(rpc, lines)}")
+                    sigs.append(f"{typ}|{harness.geom_class(lines, pixels)}|{pattern}|{kind}|rpc:{harness.rpc_class(rpc, lines)}"
+                                + ("|rich-prefix" if rich else "") + ("|replaced" if pidx == 2 else ""))
                     try:
                         da = tree[f"imagery/{g}/data"]
                     except KeyError as e:
